@@ -7,6 +7,7 @@ ids = [json.loads(l)["id"] for l in open(os.path.join(HERE, "properties.jsonl"))
 CHECKS = {
  "C02": ("exploration", "metamorphic runtime monitor: same (type, values) in two random physical encodings and the canonical one, same operation, outcomes compared; ASan build",
          "held on the generated (layout, re-encoding, operation) triples of one run; says nothing about encodings or operations the generators do not produce", "4 C02"),
+ "C04": ("exploration", "reference-model monitor on the repository's own Python layer (src/awkward on the akext stand-in for the pybind11 module): NumPy ufuncs, Python operators and ak.broadcast_arrays on 1-3 arguments derived from one generated array (same skeleton, shallower cut, size-1 regular dimension, lower rank, scalar, one length broken), compact and physical encodings; oracle = NumPy for all-regular arguments, the statement's tree-left rule otherwise, errors required for incompatible structures", "held on the executions produced (lane P); the oracle abstains (counted) where the statement does not fix the result (a shallower array meeting a regular dimension, ufuncs on records, functions undefined on a leaf type)", "4 C04"),
  "C05": ("exploration", "reference-model monitor (nested-list definitions of num/flatten/localindex) over generated layouts; ASan build", "held on the executions produced", "4 C05"),
  "C06": ("exploration", "predicate monitor per group along the axis (permutation, order, NaN-first/None-last, stability) over generated layouts; ASan build", "held on the executions produced; outer axes and missing lists above the axis are recorded known findings", "4 C06"),
  "C07": ("exploration", "reference-model monitor (itertools) over generated layouts and (n, replacement, axis); ASan build", "held on the executions produced (lane L: Content::combinations)", "4 C07"),
